@@ -1,6 +1,6 @@
 (* C15 - lemmas. *)
 From HT Require Import Common.Bytes C15.Model.
-From Coq Require Import Permutation.
+From Coq Require Import Permutation Sorted.
 Open Scope Z_scope.
 
 (* ------------------------------------------------------------------ *)
@@ -938,4 +938,158 @@ Proof.
   all: try (apply sd_resp_b_sound; vm_compute; reflexivity).
   all: try (vm_compute; reflexivity).
   all: try (repeat constructor; try discriminate; vm_compute; intros; discriminate).
+Qed.
+
+(* ------------------------------------------------------------------ *)
+(* the read-ahead defect in general: whatever shares a write with the end of a
+   (length-framed) request is read into the same buffer and dropped with the reader *)
+
+Lemma is_prefix_app p l x : is_prefix p l = true -> is_prefix p (l ++ x) = true.
+Proof.
+  revert l; induction p as [|a p IH]; intros l H; [reflexivity|].
+  destruct l as [|b l]; [cbn in H; discriminate|]. cbn [app is_prefix] in *.
+  apply andb_true_iff in H as [H1 H2]. rewrite H1, (IH _ H2). reflexivity.
+Qed.
+
+Lemma find_crlf2_app l x : forall i, find_crlf2 l = Some i -> find_crlf2 (l ++ x) = Some i.
+Proof.
+  induction l as [|a l IH]; intros i H; [discriminate|]. cbn [find_crlf2] in H.
+  change ((a :: l) ++ x) with (a :: (l ++ x)). cbn [find_crlf2].
+  destruct (is_prefix CRLF2 (a :: l)) eqn:E.
+  - change (a :: l ++ x) with ((a :: l) ++ x). rewrite (is_prefix_app _ _ x E). exact H.
+  - destruct (find_crlf2 l) as [i'|] eqn:F; [|discriminate]. inversion H; subst i.
+    rewrite (IH i' eq_refl).
+    destruct (is_prefix CRLF2 (a :: l ++ x)) eqn:E2; [|reflexivity].
+    exfalso. (* a match at position 0 of the extension lies within the first i'+1+4 bytes of l *)
+    pose proof (find_crlf2_bound _ _ F) as Hb.
+    assert (E3 : is_prefix CRLF2 (firstn 4 ((a :: l) ++ x)) = true)
+      by (apply is_prefix_firstn_ge; [exact E2|cbn [CRLF2 length]; lia]).
+    rewrite firstn_app in E3. replace (4 - length (a :: l))%nat with 0%nat in E3 by (cbn [length]; lia).
+    rewrite firstn_O, app_nil_r in E3. apply is_prefix_firstn in E3. congruence.
+Qed.
+
+Lemma frame_req_extend msg m x :
+  frame_req msg = QComplete (length msg) m -> r_chunked m = false ->
+  frame_req (msg ++ x) = QComplete (length msg) m.
+Proof.
+  intros H Hc. unfold frame_req in H |- *.
+  destruct (find_crlf2 msg) as [i|] eqn:F; [|discriminate].
+  pose proof (find_crlf2_bound _ _ F) as Hb.
+  rewrite (find_crlf2_app _ x _ F).
+  rewrite firstn_app. replace (i - length msg)%nat with 0%nat by lia. cbn [firstn]. rewrite app_nil_r.
+  destruct (split_crlf (firstn i msg)) as [|l0 ls]; [discriminate|].
+  destruct (parse_reqline l0) as [[mt tg]|]; [|discriminate].
+  destruct (parse_headers ls) as [hs|]; [|discriminate].
+  destruct (body_kind_of hs (BKLen 0)) as [|n|]; [discriminate| |].
+  - destruct (N.to_nat n <=? length (skipn (i + 4) msg))%nat eqn:E; [|discriminate].
+    inversion H as [[Hn Hm]]. apply Nat.leb_le in E.
+    rewrite skipn_app. rewrite app_length.
+    destruct (N.to_nat n <=? length (skipn (i + 4) msg) + length (skipn (i + 4 - length msg) x))%nat eqn:E2.
+    + rewrite firstn_app. replace (N.to_nat n - length (skipn (i + 4) msg))%nat with 0%nat by lia.
+      cbn [firstn]. rewrite app_nil_r. reflexivity.
+    + apply Nat.leb_gt in E2. lia.
+  - destruct (dechunk _ _ _ _); try discriminate. inversion H as [[Hn Hm]]. subst m. cbn in Hc. discriminate.
+Qed.
+
+(* the first request of a write is served; the rest of that write never reaches the next
+   reader: the state after the exchange does not depend on it *)
+Lemma readahead_dropped msg m x rest s :
+  frame_req msg = QComplete (length msg) m -> r_chunked m = false -> s_buf s = [] ->
+  run (ISeg (msg ++ x) :: rest) s = on_complete m rest s.
+Proof.
+  intros H Hc Hb. rewrite run_seg, Hb. cbn [app]. rewrite (frame_req_extend _ _ x H Hc). reflexivity.
+Qed.
+
+Lemma readahead_dropped_eq msg m x rest s :
+  frame_req msg = QComplete (length msg) m -> r_chunked m = false -> s_buf s = [] ->
+  run (ISeg (msg ++ x) :: rest) s = run (ISeg msg :: rest) s.
+Proof.
+  intros H Hc Hb. rewrite (readahead_dropped msg m x rest s H Hc Hb).
+  pose proof (readahead_dropped msg m [] rest s H Hc Hb) as E. rewrite app_nil_r in E. rewrite E. reflexivity.
+Qed.
+
+(* ------------------------------------------------------------------ *)
+(* the header sort is stable: fields with the same name keep their order *)
+
+Lemma leb_bytes_refl a : leb_bytes a a = true.
+Proof. induction a as [|x a IH]; [reflexivity|]. cbn [leb_bytes]. rewrite N.ltb_irrefl. exact IH. Qed.
+
+Lemma leb_bytes_total a : forall b, leb_bytes a b = true \/ leb_bytes b a = true.
+Proof.
+  induction a as [|x a IH]; intros b; [left; reflexivity|].
+  destruct b as [|y b]; [right; reflexivity|]. cbn [leb_bytes].
+  destruct (N.ltb_spec x y); [left; reflexivity|].
+  destruct (N.ltb_spec y x); [right; reflexivity|]. apply IH.
+Qed.
+
+Lemma leb_bytes_trans a : forall b c, leb_bytes a b = true -> leb_bytes b c = true -> leb_bytes a c = true.
+Proof.
+  induction a as [|x a IH]; intros b c H1 H2; [reflexivity|].
+  destruct b as [|y b]; [cbn in H1; discriminate|]. destruct c as [|z c]; [cbn in H2; discriminate|].
+  cbn [leb_bytes] in *.
+  destruct (N.ltb_spec x y), (N.ltb_spec y x), (N.ltb_spec y z), (N.ltb_spec z y),
+           (N.ltb_spec x z), (N.ltb_spec z x); try reflexivity; try discriminate; try lia.
+  eapply IH; eassumption.
+Qed.
+
+Definition hle (x y : header) : Prop := leb_bytes (fst x) (fst y) = true.
+
+Lemma insert_h_in h l y : In y (insert_h h l) -> y = h \/ In y l.
+Proof.
+  induction l as [|x l IH]; cbn [insert_h]; intros H.
+  - destruct H as [<-|[]]; auto.
+  - destruct (leb_bytes (fst x) (fst h)).
+    + destruct H as [<-|H]; [right; left; reflexivity|]. destruct (IH H); auto. right; right; assumption.
+    + destruct H as [<-|H]; auto.
+Qed.
+
+Lemma insert_h_sorted h l : StronglySorted hle l -> StronglySorted hle (insert_h h l).
+Proof.
+  induction 1 as [|x l Hs IH Hall]; cbn [insert_h].
+  - constructor; constructor.
+  - destruct (leb_bytes (fst x) (fst h)) eqn:E.
+    + constructor; [exact IH|]. apply Forall_forall. intros y Hy.
+      destruct (insert_h_in _ _ _ Hy) as [->|Hy']; [exact E|]. rewrite Forall_forall in Hall. apply Hall, Hy'.
+    + assert (Hhx : hle h x).
+      { destruct (leb_bytes_total (fst h) (fst x)) as [T|T]; [exact T|congruence]. }
+      constructor; [constructor; assumption|]. constructor; [exact Hhx|].
+      apply Forall_forall. intros y Hy. rewrite Forall_forall in Hall.
+      unfold hle in *. eapply leb_bytes_trans; [exact Hhx|apply Hall, Hy].
+Qed.
+
+Definition named (n : bytes) (h : header) : bool := eqb_bytes (fst h) n.
+
+Lemma insert_h_filter n h l : StronglySorted hle l ->
+  filter (named n) (insert_h h l) = filter (named n) l ++ (if named n h then [h] else []).
+Proof.
+  induction 1 as [|x l Hs IH Hall]; cbn [insert_h].
+  - cbn [filter app]. destruct (named n h); reflexivity.
+  - destruct (leb_bytes (fst x) (fst h)) eqn:E.
+    + cbn [filter]. rewrite IH. destruct (named n x); reflexivity.
+    + destruct (named n h) eqn:Nh; [|cbn [filter]; rewrite Nh, app_nil_r; reflexivity].
+      (* h is named n and comes before x: nothing named n can follow *)
+      unfold named in Nh. apply eqb_bytes_true in Nh.
+      assert (Hnone : filter (named n) (x :: l) = []).
+      { assert (Hall' : Forall (fun y => named n y = false) (x :: l)).
+        { constructor.
+          - unfold named. destruct (eqb_bytes (fst x) n) eqn:Ex; [|reflexivity].
+            apply eqb_bytes_true in Ex. rewrite Ex, <- Nh, leb_bytes_refl in E. discriminate.
+          - apply Forall_forall. intros y Hy. rewrite Forall_forall in Hall. specialize (Hall y Hy).
+            unfold named. destruct (eqb_bytes (fst y) n) eqn:Ey; [|reflexivity].
+            apply eqb_bytes_true in Ey. unfold hle in Hall. rewrite Ey, <- Nh in Hall. congruence. }
+        clear -Hall'. induction Hall' as [|y r Hy _ IHr]; [reflexivity|]. cbn [filter]. rewrite Hy. exact IHr. }
+      cbn [filter] in Hnone |- *. unfold named at 1. rewrite <- Nh at 1.
+      assert (Hh : eqb_bytes (fst h) (fst h) = true) by (apply eqb_bytes_true; reflexivity).
+      rewrite Hh, Hnone. reflexivity.
+Qed.
+
+Lemma sort_headers_stable n l : filter (named n) (sort_headers l) = filter (named n) l.
+Proof.
+  unfold sort_headers.
+  assert (G : forall acc, StronglySorted hle acc ->
+            filter (named n) (fold_left (fun acc h => insert_h h acc) l acc) = filter (named n) acc ++ filter (named n) l).
+  { induction l as [|h l IH]; intros acc Hs; cbn [fold_left filter]; [rewrite app_nil_r; reflexivity|].
+    rewrite (IH _ (insert_h_sorted h acc Hs)), (insert_h_filter n h acc Hs), <- app_assoc.
+    destruct (named n h); reflexivity. }
+  rewrite (G [] ltac:(constructor)). reflexivity.
 Qed.
